@@ -172,5 +172,28 @@ func init() {
 			Infra("selftest failed")
 		}
 		fmt.Println("SELFTEST OK: a schedule of Pipeline1 is followed step by step by the real processes; cat-file answering before the listing has ended cannot be followed; a scheduled death makes the run fail")
+
+		// ConfigKeys binding: the outcome of one listing written out by hand is what the real RefGroupBuilder gives;
+		// the same outcome with one row removed, with another refusal, with another classification is rejected
+		drv := buildRefDriver(c)
+		sym := func(ts ...string) []string { return ts }
+		kgood := keysExport{
+			Recs:  []keysRec{{Sec: sym("G"), HasSub: true, Sub: sym("a"), Var: sym("I"), Value: 1}},
+			Order: [][]string{sym("b"), sym("a")}, Err: [][]string{}, Names: []int{0, 0},
+			List:    [][]string{sym(), sym("b"), sym("a"), sym("o")},
+			Tallies: [][][]string{{sym(), sym("o")}, {sym(), sym("a")}, {sym(), sym("a")}, {sym(), sym("b")}, {sym(), sym("b")}, {sym(), sym("b")}},
+		}
+		ans := refdrvBatch(c, drv, [][]byte{keysListing(kgood)}, keysProbes)
+		noRow, refused, otherCat := kgood, kgood, kgood
+		noRow.List = [][]string{sym(), sym("b"), sym("o")}
+		refused.Err = [][]string{sym("a")}
+		otherCat.Tallies = [][][]string{{sym(), sym("o")}, {sym(), sym("o")}, {sym(), sym("a")}, {sym(), sym("b")}, {sym(), sym("b")}, {sym(), sym("b")}}
+		d0, d1, d2, d3 := keysCompare(kgood, ans[0]), keysCompare(noRow, ans[0]), keysCompare(refused, ans[0]), keysCompare(otherCat, ans[0])
+		c.Note("ConfigKeys binding: as printed by the model %q; row removed %q; refusal expected %q; other classification %q", d0, d1, d2, d3)
+		if d0 != "" || d1 == "" || d2 == "" || d3 == "" {
+			fmt.Println("SELFTEST FAILED: the ConfigKeys replay does not discriminate")
+			Infra("selftest failed")
+		}
+		fmt.Println("SELFTEST OK: the real RefGroupBuilder gives the outcome the ConfigKeys model prints for a listing; a missing row, an expected refusal and another classification are rejected")
 	}
 }
